@@ -289,6 +289,12 @@ def Db.hasUnresolved (db : Db) (key : Bytes) : Bool :=
     | some e => !Bytes.startsWith e.value Gen.resolvedPrefix
     | none => false
 
+/-- `apply_resolution`: the write of the resolved key (version 'in conflict' while other conflicts of the key are open) -/
+def Db.applyResolution (db1 : Db) (c : Change) : Db × SetResp × List Push :=
+  let pendingLeft := db1.hasUnresolved c.key
+  let c' : Change := if pendingLeft then { c with resolve := true, version := inConflict } else { c with resolve := true }
+  db1.setValue c'
+
 /-- `resolve_conflit` -/
 def Node.resolveConflict (n : Node) (db : Db) (c : Change) : Node × Db × Resp × List Ev :=
   let (n, id) := n.tick
@@ -296,9 +302,7 @@ def Node.resolveConflict (n : Node) (db : Db) (c : Change) : Node × Db × Resp 
   match db.setValue reg with
   | (db1, _, ps1) =>
     let (n, evR) := n.replicateChange db.name reg
-    let pendingLeft := db1.hasUnresolved c.key
-    let c' : Change := if pendingLeft then { c with resolve := true, version := inConflict } else { c with resolve := true }
-    match db1.setValue c' with
+    match db1.applyResolution c with
     | (db2, r, ps2) => (n, db2, r.toResp, pushes ps1 ++ evR ++ pushes ps2)
 
 /-- `register_arbiter` -/
@@ -360,7 +364,9 @@ def Node.processObj (recur : Node → Sid → Bytes → Node × Out) (n : Node) 
   | .remove key =>
     n.withAccess (n.safeAccess sid key .remove) fun db =>
       match db.removeValue key with
-      | some (db', ps) => (n.setDb db', .ok, pushes ps)
+      | some (db', ps) =>
+        let fwd := if !n.isPrimary then n.sendToPrimary (replicateRemoveMsg db.name key) else []
+        (n.setDb db', .ok, pushes ps ++ fwd)
       | none => (n, .error Gen.tokenRemoveMsg, [])
   | .set key value version =>
     n.withAccess (n.safeAccess sid key .write) fun db =>
@@ -544,7 +550,14 @@ def Node.processObj (recur : Node → Sid → Bytes → Node × Out) (n : Node) 
       if n.isPrimary then
         match n.resolveConflict db c with
         | (n, db', r, evs) => (n.setDb db', r, evs)
-      else (n, .ok, n.sendToPrimary (resolveMsg op dbName key value version))
+      else
+        -- replica-set path: a resolve that arrives from the primary is not sent back to it
+        let fromPrimary := s.auth && (match s.member with | some (_, r) => r = .primary | none => false)
+        if fromPrimary then
+          -- the conflict registry key is replicated on its own; the resolved value only travels with this command
+          match db.applyResolution c with
+          | (db', _, ps) => (n.setDb db', .ok, pushes ps)
+        else (n, .ok, n.sendToPrimary (resolveMsg op dbName key value version))
   | .setPermissions user perms =>
     n.withAccess (n.safeAccess sid Gen.permKeyPrefix .write) fun db =>
       let key := Gen.permKeyPrefix ++ user
